@@ -105,10 +105,10 @@ func (r *pkgRun) fail(prop, kind string, di int, op, expected, observed, model, 
 		// the listed resource findings have ONE cause: a count or length on the wire that is believed although the
 		// input cannot hold that many elements -- the decoders allocate for it (out of memory, or far too much) or
 		// loop over it (elements that take no bytes, or a stream that has run dry). Anything else is something else:
-		//  * a crash that is not the runtime's out-of-memory report (stack overflow, a fatal error, a signal);
+		//  * a crash with a report that is not the runtime's out-of-memory one (stack overflow, a fatal error, a signal);
 		//  * a hang on an input that the model gets through: the model declines exactly the inputs with a
 		//    run-away count ("fuel": a loop over more than 65536 elements that consume nothing).
-		if kind == "crash" && !strings.Contains(observed, "out_of_memory") {
+		if kind == "crash" && !strings.Contains(observed, "out_of_memory") && !strings.Contains(observed, "no_stderr") {
 			class += ":not-out-of-memory"
 		}
 		if kind == "timeout" && r.mdl != nil {
@@ -157,11 +157,12 @@ func (r *pkgRun) real(line string) session.Resp {
 		r.eng.note("driver of %s cannot be restarted: %v", r.pkg.ID, err)
 		return resp
 	}
-	if resp.Class == "crash" && smallBlockOOM(resp.Raw) {
+	if resp.Class == "crash" && (smallBlockOOM(resp.Raw) || strings.Contains(resp.Raw, "no_stderr")) {
 		// the driver is a long-lived process with a memory cap. When it dies for want of a SMALL block (this operation
 		// did not ask for much; the heap was full of what earlier operations left behind, and those are measured and
 		// reported one by one by the allocation checks), the operation is attributed the crash only if it crashes a
-		// fresh driver too. A request for a large block is the operation's own doing and is never retried.
+		// fresh driver too. A request for a large block is the operation's own doing and is never retried. A
+		// process that died without a word (killed from outside: the kernel's OOM killer under load) is retried too.
 		again, err2 := r.drv.Do(line)
 		if err2 != nil {
 			r.dead = true
@@ -939,7 +940,11 @@ func (r *pkgRun) c07(di, round int, B []byte, bucket string) {
 					gv, e1 = rd.Val()
 					mv, e2 = md.Val()
 				}
-				if e1 != nil || e2 != nil || gv.CanonString() != mv.CanonString() {
+				if e1 == nil && e2 == nil && gv.CanonString() != mv.CanonString() && val.CollidingDateKeys(r.sc.env, schema.Ty{K: schema.TyRef, Ref: di}, gv) {
+					// the printed value says less than the Go value holds (two date keys that differ below one tick):
+					// nothing to compare the model with
+					r.st("C07").dist("model", "declined-subtick-date-keys")
+				} else if e1 != nil || e2 != nil || gv.CanonString() != mv.CanonString() {
 					r.fail("C07", "mismatch", di, op, md.Short(), rd.Short(), md.Short(), "decoded values differ; "+note)
 				} else if gc != mc {
 					r.fail("C07", "mismatch", di, op, fmt.Sprintf("consumed %d", mc), fmt.Sprintf("consumed %d", gc), md.Short(), "consumed differs; "+note)
